@@ -540,7 +540,7 @@ func (p *parser) mul() SExpr {
 func (p *parser) unary() SExpr {
 	if p.peek().k == "op" {
 		switch p.peek().v {
-		case "!", "-", "^", "*":
+		case "!", "-", "^", "*", "&":
 			op := p.next().v
 			return &SUnary{op, p.unary()}
 		}
